@@ -480,4 +480,13 @@ theorem gen_options_new_ok_iff (q b g : Nat) (e : Ext) (ff fr en : Nat) :
   · rw [if_neg h] at key
     exact ⟨fun c => absurd c h, fun hd => absurd (key.mpr ⟨hd, rfl⟩) (by simp)⟩
 
+open C18G in
+/-- ★ the accessors composed in: `FieldExtension::degree` (a `match`, regenerated) and the four option accessors
+    (regenerated) feed the regenerated estimate exactly the values `genConj` is applied to -/
+theorem gen_conjectured_via_accessors (o : Options) (k bits n cr : Nat) (h : Ext.ofNat? k = some o.ext) :
+    Gen.Security.get_conjectured_security (Gen.ProofOpts.blowup_factor o.blowup)
+      (Gen.ProofOpts.degree (Gen.ProofOpts.field_extension k)) (Gen.ProofOpts.grinding_factor o.grinding)
+      (Gen.ProofOpts.num_queries o.numQueries) bits n cr = genConj o bits n cr :=
+  genConj_via_accessors o k bits n cr h
+
 end C18
